@@ -24,7 +24,8 @@ OBJ_NOTATIONS = ["magic_update", "nested_update", "attr", "assign_dict", "assign
                  "magic_then_dict", "attr_dict", "str_shortcut"]
 CTOR_NOTATIONS = ["ctor_magic", "ctor_dict", "ctor_mixed"]
 DEF_NOTATIONS = ["fam_update", "style_update_nested", "style_update_magic", "attr", "display_update",
-                 "fam_mixed_update", "fam_attr_dict", "fam_assign_dict"]
+                 "fam_mixed_update", "fam_attr_dict", "fam_assign_dict", "defaults_update_nested",
+                 "defaults_update_magic"]
 
 
 def magic_then_dict_kwargs(items):
@@ -357,6 +358,10 @@ class C20Session(Session):
             if d != keep:
                 raise Violation("caller_dict_mutated", "defaults update(dict, **kwargs) changed the caller's dict",
                                 op="def_set", notation=notation)
+        elif notation == "defaults_update_nested":
+            magpy.defaults.update(display={"style": {fam: nest_items(items)}})
+        elif notation == "defaults_update_magic":
+            magpy.defaults.update(**{f"display_style_{fam}_{leaf}": own(v, leaf) for leaf, v in items})
         elif notation == "fam_attr_dict":
             assign_sub_dicts(getattr(style, fam), items)
         elif notation == "fam_assign_dict":
